@@ -47,9 +47,9 @@ type Ctx struct {
 	Extra        map[string]interface{}
 }
 
-func (c *Ctx) Ev(name string)            { c.Events[name]++ }
-func (c *Ctx) EvN(name string, n int64)  { c.Events[name] += n }
-func (c *Ctx) Quick() bool               { return c.Job.Tier == "quick" }
+func (c *Ctx) Ev(name string)           { c.Events[name]++ }
+func (c *Ctx) EvN(name string, n int64) { c.Events[name] += n }
+func (c *Ctx) Quick() bool              { return c.Job.Tier == "quick" }
 func (c *Ctx) N(quick, thorough int) int {
 	if c.Quick() {
 		return quick
@@ -93,12 +93,12 @@ func Register(name string, f func(c *Ctx)) { Scenarios[name] = &Scenario{Name: n
 
 // PropSpec describes how a property is checked.
 type PropSpec struct {
-	ID       string
-	Level    string // evidence level
-	Rule     string // how cases are generated and what makes one distinct / non-trivial
-	Monitors func() []mon.Monitor
-	Plan     func(tier string) []PlanItem
-	Assume   []string
+	ID          string
+	Level       string // evidence level
+	Rule        string // how cases are generated and what makes one distinct / non-trivial
+	Monitors    func() []mon.Monitor
+	Plan        func(tier string) []PlanItem
+	Assume      []string
 	MinDistinct int64
 }
 
@@ -120,17 +120,17 @@ type MonStat struct {
 
 // Result is what a worker writes.
 type Result struct {
-	Job          Job               `json:"job"`
-	Violations   []chain.Violation `json:"violations"`
-	NViolations  int               `json:"n_violations"`
-	Stats        []MonStat         `json:"stats"`
-	Events       map[string]int64  `json:"events"`
-	Blocks       int64             `json:"blocks"`
-	TxOK         map[string]int    `json:"tx_ok"`
-	TxFail       map[string]int    `json:"tx_fail"`
-	FailLogs     map[string]string `json:"fail_logs,omitempty"`
-	Inconclusive string            `json:"inconclusive,omitempty"`
-	WallS        float64           `json:"wall_s"`
+	Job          Job                    `json:"job"`
+	Violations   []chain.Violation      `json:"violations"`
+	NViolations  int                    `json:"n_violations"`
+	Stats        []MonStat              `json:"stats"`
+	Events       map[string]int64       `json:"events"`
+	Blocks       int64                  `json:"blocks"`
+	TxOK         map[string]int         `json:"tx_ok"`
+	TxFail       map[string]int         `json:"tx_fail"`
+	FailLogs     map[string]string      `json:"fail_logs,omitempty"`
+	Inconclusive string                 `json:"inconclusive,omitempty"`
+	WallS        float64                `json:"wall_s"`
 	Extra        map[string]interface{} `json:"extra,omitempty"`
 }
 
